@@ -132,4 +132,7 @@ def equilibrium_population(tmat, allow_non_ergodic=True):
         eigenvectors = np.zeros(len(tmat), dtype=tmat.dtype)
         eigenvectors[mask] = evs_mask[0]
 
+    # the sign of an eigenvector is arbitrary, for a degenerated eigenvalue 1
+    # (disjoint ergodic subsets of same size) even for each subset on its own
+    eigenvectors = np.abs(eigenvectors)
     return eigenvectors / np.sum(eigenvectors)
